@@ -61,6 +61,7 @@ def _deliver(node, chunks, nmsgs):
                 while not node.assoc.postprocess_recv_messages.empty():
                     delivered.append(node.d.get_message().dump())
         except (LIB + (Exception,)) as e:
+            __import__('vf.h').h.reraise_if_harness(e)
             return f"{type(e).__name__}: {e}"
         if node.assoc.lock.locked():
             return "association lock left held"
@@ -212,6 +213,7 @@ def interleaved(sched: List[bool]) -> bool:
             if REPLAY: note(deadlock=d.who, delivered=len(got), expected=len(want), schedule="".join(x[0] for x in s.trace))
             return False
         except (LIB + (Exception,)) as e:
+            __import__('vf.h').h.reraise_if_harness(e)
             reached()
             if REPLAY: note(raised=f"{type(e).__name__}: {e}", schedule="".join(x[0] for x in s.trace))
             return False
@@ -256,6 +258,7 @@ def handover(sched: List[bool]) -> bool:
             if REPLAY: note(deadlock=d.who, delivered=len(got), expected=n, schedule="".join(x[0] for x in s.trace)[-200:])
             return False
         except (LIB + (Exception,)) as e:
+            __import__('vf.h').h.reraise_if_harness(e)
             reached()
             if REPLAY: note(raised=f"{type(e).__name__}: {e}", schedule="".join(x[0] for x in s.trace)[-200:])
             return False
